@@ -206,29 +206,45 @@ func c19Check(flag bool, rollup, leaf uint32, wire bool) error {
 	if err != nil {
 		return fmt.Errorf("INCONCLUSIVE: grpc clients: %v", err)
 	}
+	// both messages carry two claims (this one first, then the companion with another index): every entry must carry its
+	// own claim's value
+	cert.ImportedBridgeExits = []*agglayertypes.ImportedBridgeExit{ibe, ibe2}
 	if _, err := cl.agg.SendCertificate(context.Background(), cert); err != nil {
 		return fmt.Errorf("SendCertificate: %v", err)
 	}
 	w.mu.Lock()
 	sub := w.submit
 	w.mu.Unlock()
-	gi := sub.GetCertificate().GetImportedBridgeExits()[0].GetGlobalIndex().GetValue()
-	if len(gi) != 32 || new(big.Int).SetBytes(gi).Cmp(x) != 0 {
-		return fmt.Errorf("wire message carries global index %x, want 0x%x (32 bytes big-endian)", gi, x)
+	wants := []*big.Int{x, claim2.GlobalIndex}
+	hashes := []common.Hash{exitHash, exitHash2}
+	if n := len(sub.GetCertificate().GetImportedBridgeExits()); n != 2 {
+		return fmt.Errorf("wire message carries %d imported bridge exits, want 2", n)
 	}
-	req := &aggsendertypes.AggchainProofRequest{ImportedBridgeExitsWithBlockNumber: []*agglayertypes.ImportedBridgeExitWithBlockNumber{{BlockNumber: 7, ImportedBridgeExit: ibe}}}
+	for k, e := range sub.GetCertificate().GetImportedBridgeExits() {
+		gi := e.GetGlobalIndex().GetValue()
+		if len(gi) != 32 || new(big.Int).SetBytes(gi).Cmp(wants[k]) != 0 {
+			return fmt.Errorf("wire message entry %d carries global index %x, want 0x%x (32 bytes big-endian)", k, gi, wants[k])
+		}
+	}
+	req := &aggsendertypes.AggchainProofRequest{ImportedBridgeExitsWithBlockNumber: []*agglayertypes.ImportedBridgeExitWithBlockNumber{
+		{BlockNumber: 7, ImportedBridgeExit: ibe}, {BlockNumber: 8, ImportedBridgeExit: ibe2}}}
 	if _, err := cl.prov.GenerateAggchainProof(context.Background(), req); err != nil {
 		return fmt.Errorf("GenerateAggchainProof: %v", err)
 	}
 	w.mu.Lock()
 	pr := w.prove
 	w.mu.Unlock()
-	gi = pr.GetImportedBridgeExits()[0].GetGlobalIndex().GetValue()
-	if len(gi) != 32 || new(big.Int).SetBytes(gi).Cmp(x) != 0 {
-		return fmt.Errorf("prover request carries global index %x, want 0x%x", gi, x)
+	if n := len(pr.GetImportedBridgeExits()); n != 2 {
+		return fmt.Errorf("prover request carries %d imported bridge exits, want 2", n)
 	}
-	if h := pr.GetImportedBridgeExits()[0].GetBridgeExitHash().GetValue(); !bytes.Equal(h, exitHash.Bytes()) {
-		return fmt.Errorf("prover request carries exit hash %x, want %s", h, exitHash)
+	for k, e := range pr.GetImportedBridgeExits() {
+		gi := e.GetGlobalIndex().GetValue()
+		if len(gi) != 32 || new(big.Int).SetBytes(gi).Cmp(wants[k]) != 0 {
+			return fmt.Errorf("prover request entry %d carries global index %x, want 0x%x", k, gi, wants[k])
+		}
+		if h := e.GetBridgeExitHash().GetValue(); !bytes.Equal(h, hashes[k].Bytes()) {
+			return fmt.Errorf("prover request entry %d carries exit hash %x, want %s", k, h, hashes[k])
+		}
 	}
 	return nil
 }
